@@ -118,10 +118,13 @@ def period_union(events1: List[Event], events2: List[Event]) -> List[Event]:
             merged_events[-1] = _replace_event_period(last_event, new_period)
         else:
             merged_events.append(e)
+    result = []
     for event in merged_events:
-        # Clear data
+        # Clear data, on a copy: un-merged events are still the caller's objects
+        event = deepcopy(event)
         event.data = {}
-    return merged_events
+        result.append(event)
+    return result
 
 
 def union(events1: List[Event], events2: List[Event]) -> List[Event]:
